@@ -36,6 +36,7 @@ fn uri_of_len(scheme: &str, n: usize) -> String {
 
 fn gen(rng: &mut Rng, tier: &str) -> Vec<(String, Value)> {
     let mut cases = Vec::new();
+    let mut big = Vec::new();     // cases that are expensive to evaluate inside Coq; spread over the list at the end
     let h32 = |x: u8| hex(&[x; 32]);
     // (a) exhaustive small scope
     for n in 0..256u64 { cases.push(case("exhaustive", "u8", json!(n), &[])); }
@@ -73,16 +74,28 @@ fn gen(rng: &mut Rng, tier: &str) -> Vec<(String, Value)> {
         cases.push(case("boundary", "status", json!({"success": x % 2 == 0, "time": x}), &[]));
     }
     // byte strings around the read chunk size (65536) of the fixed decoder, and short ones
-    let big: &[usize] = if tier == "thorough" { &[65535, 65536, 65537, 131072, 131073, 200000] } else { &[65535, 65536, 65537, 131073] };
-    for &n in [0usize, 1, 2, 255, 256, 257].iter().chain(big.iter()) {
+    for n in [0usize, 1, 2, 255, 256, 257] {
         let b: Vec<u8> = (0..n).map(|i| (i * 7 + n) as u8).collect();
         cases.push(case("boundary.len", "bytes", json!(hex(&b)), &[1]));
-        if n != 65535 && n != 131072 { cases.push(case("boundary.len", "opt_bytes", json!(hex(&b)), &[])); }
+        cases.push(case("boundary.len", "opt_bytes", json!(hex(&b)), &[]));
     }
-    for n in [14usize, 255, 256, 65535, 65536, 65537, 70000] {
+    let big_bytes: &[usize] = if tier == "thorough" { &[65535, 65536, 65537, 131072, 131073, 200000] } else { &[65535, 65536, 65537, 131073] };
+    for &n in big_bytes {
+        let b: Vec<u8> = (0..n).map(|i| (i * 7 + n) as u8).collect();
+        big.push(case("boundary.chunk", "bytes", json!(hex(&b)), &[1]));
+        if n == 65537 || tier == "thorough" { big.push(case("boundary.chunk", "opt_bytes", json!(hex(&b)), &[])); }
+    }
+    for n in [14usize, 255, 256] {
         cases.push(case("boundary.len", "rsync", json!(uri_of_len("rsync", n)), &[]));
         cases.push(case("boundary.len", "https", json!(uri_of_len("https", n)), &[]));
-        if n < 1000 || n == 65537 { cases.push(case("boundary.len", "opt_https", json!(uri_of_len("https", n)), &[0])); }
+        cases.push(case("boundary.len", "opt_https", json!(uri_of_len("https", n)), &[0]));
+    }
+    big.push(case("boundary.chunk", "rsync", json!(uri_of_len("rsync", 65537)), &[]));
+    big.push(case("boundary.chunk", "https", json!(uri_of_len("https", 65536)), &[]));
+    big.push(case("boundary.chunk", "opt_https", json!(uri_of_len("https", 65537)), &[0]));
+    if tier == "thorough" {
+        big.push(case("boundary.chunk", "rsync", json!(uri_of_len("rsync", 65536)), &[]));
+        big.push(case("boundary.chunk", "https", json!(uri_of_len("https", 70000)), &[]));
     }
     cases.push(case("boundary", "https", json!("https://"), &[]));
     cases.push(case("boundary", "opt_https", json!("HTTPS://"), &[]));
@@ -109,11 +122,11 @@ fn gen(rng: &mut Rng, tier: &str) -> Vec<(String, Value)> {
     // a stored manifest and object with contents beyond one chunk
     {
         let mut r = rng.fork();
-        let big = hex(&(0..70000usize).map(|i| (i * 3 + 1) as u8).collect::<Vec<u8>>());
-        cases.push(case("boundary.len", "manifest", json!({
+        let big_content = hex(&(0..70000usize).map(|i| (i * 3 + 1) as u8).collect::<Vec<u8>>());
+        big.push(case("boundary.chunk", "manifest", json!({
             "not_after": 1800000000, "manifest_number": hex(&gen_serial(&mut r)), "this_update": 1700000000,
-            "ca_repository": "rsync://h/m/ca/", "manifest": big, "crl_uri": "rsync://h/m/ca/x.crl", "crl": "3000"}), &[]));
-        cases.push(case("boundary.len", "object", json!({"uri": "rsync://h/m/ca/x.roa", "hash": h32(9), "content": hex(&(0..66000usize).map(|i| (i * 5) as u8).collect::<Vec<u8>>())}), &[]));
+            "ca_repository": "rsync://h/m/ca/", "manifest": big_content, "crl_uri": "rsync://h/m/ca/x.crl", "crl": "3000"}), &[]));
+        big.push(case("boundary.chunk", "object", json!({"uri": "rsync://h/m/ca/x.roa", "hash": h32(9), "content": hex(&(0..66000usize).map(|i| (i * 5) as u8).collect::<Vec<u8>>())}), &[]));
     }
     // (c) structured random values of every kind
     let n = if tier == "thorough" { 400 } else { 60 };
@@ -133,6 +146,9 @@ fn gen(rng: &mut Rng, tier: &str) -> Vec<(String, Value)> {
             cases.push(case("subsecond", kind, v, &[]));
         }
     }
+    // the check evaluates consecutive slices of the list in parallel: one expensive case per slice
+    let step = cases.len() / (big.len() + 1);
+    for (i, b) in big.into_iter().enumerate().rev() { cases.insert((i + 1) * step, b); }
     cases
 }
 
